@@ -47,6 +47,8 @@ def taint_rule(R, sm, bv):
         desc = fmt_t(si.term)
         # the tested value must be the verifier's answer on every path that merges into it
         # (`if shortcut { Ok(..) } else { verify_response(..) }` is not a verification)
+        if "verify_response" not in desc and (lib.head_call(si.term) or "").endswith("verify_response"):
+            desc = "verify_response<-" + desc      # produced by verify_response inside a closure handed to Option::map
         if "verify_response" in desc and not (lib.head_call(si.term) or "").endswith("verify_response"):
             R.violation("C02-R1", "verify-result-merged:" + bv.name.split("::")[-2], "the value tested as the verification result is not the answer of verify_response on every path: " + desc[:160], lib.loc(bv, bi))
             continue
@@ -88,6 +90,16 @@ def taint_rule(R, sm, bv):
                         elif [e["k"] for e in base.get("p", [])] == ["deref"]:
                             nxt = base["l"]
                 cur = nxt
+    # .. or captured by the closure that performs the verification (`.map(|(h, m)| h.verify_response(m, &response, ..))`)
+    for bi in sorted(bv.reach0):
+        for si_, s_ in enumerate(bv.blocks[bi]["s"]):
+            if s_["k"] == "assign" and s_["r"]["k"] == "agg" and s_["r"].get("ak") == "closure" and s_["r"].get("id") in sm.w.by_id and lib.calls_verify_response(BV.of(sm.w.by_id[s_["r"]["id"]]), False):
+                for op_ in s_["r"].get("ops", []):
+                    pl_ = op_.get("m") or op_.get("c")
+                    if pl_ and not pl_.get("p"):
+                        for (dbi, dsi, kind, x) in bv.defs.get(pl_["l"], []):
+                            if kind == "rv" and x["k"] == "ref" and x["p"]["l"] in rl and not x["p"].get("p"):
+                                allowed_blocks.add((dbi, dsi))
     # use sites
     n_uses = 0
     defs_blocks = [d[0] for l in rl for d in bv.defs.get(l, [])]
@@ -236,26 +248,31 @@ def run(F, R):
     for (SS, tag) in ((S, "check"), (Sr, "run")):
         for n in sm.env(SS, "Cup", "verify_response"):
             nd = SS.nodes[n]
-            bv = nd.ctx.bv
+            # the verification may sit in a closure handed to Option::map (`handler.zip(meta).map(|..| verify(..)).transpose()?`):
+            # its result is tested in the function that creates the closure
+            xcx = nd.ctx
+            while xcx.parent is not None and xcx.bv.body.get("kind") == "closure":
+                xcx = xcx.parent
+            bv = xcx.bv
             # Break edge of the `?` on the verify result in this context
             brk = []
             for m in SS.nodes:
-                if m.ctx is nd.ctx and m.idx in SS.live and m.term["k"] == "switch":
+                if m.ctx is xcx and m.idx in SS.live and m.term["k"] == "switch":
                     si = guards.switch_info(bv, m.bi)
-                    if si and si.kind == "discr" and "verify_response" in fmt_t(si.term) and si.ty.get("d") in ("std::ops::ControlFlow", "std::result::Result"):
+                    if si and si.kind == "discr" and ("verify_response" in fmt_t(si.term) or (lib.head_call(si.term) or "").endswith("verify_response")) and si.ty.get("d") in ("std::ops::ControlFlow", "std::result::Result"):
                         for b in SS.succ[m.idx]:
                             labs = [l[2] for l in SS.elabel.get((m.idx, b), []) if l[0] == "switch"]
                             names = [si.names.get(v, str(v)) for v in labs]
                             if "Break" in names or "Err" in names:
                                 brk.append(b)
             if not brk:
-                R.violation("C02-R3", "verify-error-edge:%s:%d" % (tag, nd.ctx.idx), "the result of verify_response is not propagated with `?`/match in %s" % bv.name, nd.loc())
+                R.violation("C02-R3", "verify-error-edge:%s:%d" % (tag, xcx.idx), "the result of verify_response is not propagated with `?`/match in %s" % bv.name, nd.loc())
                 continue
-            r_ = reach_in(SS, brk, nd.ctx)
+            r_ = reach_in(SS, brk, xcx)
             bad = [x for x in r_ if SS.ev[x] is not None and SS.ev[x][0] in ("env", "yield", "reply", "metric")]
             wr = [x for x in sm.writes(SS, "server_dictated_poll_interval") if x in r_]
             hdr = [x for x in r_ if SS.nodes[x].term["k"] == "call" and lib.callee_is(SS.nodes[x].term, "http::HeaderMap::<T>::get", "http::Response::<T>::into_parts", "http::Response::<T>::headers", "http::Response::<T>::body", "http::Response::<T>::status")]
-            R.check("C02-R3", "exchange-exit:%s:%d" % (tag, len([1 for _ in brk])) + ":" + _ctxkey(nd.ctx), not bad and not wr and not hdr,
+            R.check("C02-R3", "exchange-exit:%s:%d" % (tag, len([1 for _ in brk])) + ":" + _ctxkey(xcx), not bad and not wr and not hdr,
                     "verification failure returns from the exchange with no effect",
                     "after a verification failure the exchange still performs: %s" % ([str(SS.ev[x]) + "@" + SS.nodes[x].loc() for x in bad] + [SS.nodes[x].loc() for x in wr + hdr]), nd.loc())
     forbidden = set(sm.env(S, "Http", "request")) | set(sm.env(S, "Timer")) | set(sm.calls(S, "protocol::response::parse_json_response")) | set(sm.env(S, "Installer")) | set(sm.env(S, "Policy")) | set(sm.yields(S, "OmahaServerResponse")) | set(sm.calls(S, "app_set::AppSetExt::update_from_omaha"))
@@ -410,7 +427,7 @@ def _ctxkey(ctx):
 def _is_exchange(ctx):
     """The exchange function: the coroutine that calls verify_response."""
     bv = ctx.bv
-    return any(t.get("trait") == "cup_ecdsa::Cupv2RequestHandler" and t.get("name") == "verify_response" for _, t in bv.calls())
+    return bv.body.get("kind") == "coroutine" and lib.calls_verify_response(bv) or any(t.get("trait") == "cup_ecdsa::Cupv2RequestHandler" and t.get("name") == "verify_response" for _, t in bv.calls())
 
 
 def _is_ping(sm, S, ctx):
